@@ -6,9 +6,11 @@ from props import c06
 PARTIAL = ("proved for every usage, table and text: the binding rule of formals (C05_binding), the three misuse errors with "
            "their payloads, expansion to nothing for body-less macros, and that the substituted body is preprocessed again "
            "with the table at the point of use (C05_expands_with_current_table); whole-word substitution on bodies without "
-           "quote, slash, backslash, backtick (C05_split_plain, C05_whole_word_substitution). The textual substitution on "
-           "bodies with strings, comments, paste and stringification is tied by correspondence of the evaluator model and "
-           "by an independent reference reading of 22.5.1 on generated define/usage programs, not by a theorem")
+           "quote, slash, backslash, backtick (C05_split_plain, C05_whole_word_substitution); on bodies of plain stretches and "
+           "string literals each literal is one piece and is copied as it stands (C05_string_literal_is_one_piece, "
+           "C05_string_literals_untouched). The textual substitution on bodies with comments, escapes inside strings, paste and "
+           "stringification is tied by correspondence of the evaluator model and by an independent reference reading of "
+           "22.5.1 on generated define/usage programs, not by a theorem")
 
 NAMES = ["M", "N1", "add", "cat", "str", "W"]
 FORMALS = ["a", "b", "x", "y1", "_z", "type", "input", "bit", "logic", "wire", "begin"]   # reserved words are legal names of formals
@@ -110,6 +112,10 @@ HAND = [
     "`define E\n`define E2()\nx `E y `E2() z\n",
     "`define L a \\\n b \\\r\n c\n`L\n",
     "`define S(x) \"x\" x\n`S(v)\n",
+    # a macro without formals whose text ends in the name of one with formals: the parenthesis behind the usage is its argument list
+    "`define ADD(a,b) ((a)+(b))\n`define PLUS `ADD\ny = `PLUS(p, q) ;\n",
+    "`define SEL(v, i) v[i]\n`define PICK `SEL\n`define PICK2 `PICK\nz = `PICK2(w, 3) ;\n",
+    "`define ID(x) x\n`define ALIAS `ID\n`ALIAS(`ALIAS(k)) ;\n",
 ]
 HAND_ERR = [
     ("`A\n", ("DefineNotFound", "A")), ("`define A(x) x\n`A\n", ("DefineNoArgs", "A")),
